@@ -174,6 +174,8 @@ def run(repo: Repo, tier: str) -> Report:
     # ---------------------------------------------------------------- 3. R-PURE / R-READONLY
     bi = set(dir(builtins))
     for name, k in sorted(kernels.items()):
+        if k.inlined:
+            continue        # analysed inlined in its callers (sa/canon.py): its parameters are the callers' arrays
         m = repo.mod(k.module)
         mod_assigned = {}
         imported = set()
@@ -346,14 +348,21 @@ def run(repo: Repo, tier: str) -> Report:
 
     # ---------------------------------------------------------------- 6. R-PUBLISH
     lz = repo.func("hdc.algo.ops._helper", "lazycompile")
-    inner = [n for n in ast.walk(lz) if isinstance(n, ast.FunctionDef) and n.name == "wrapper"]
-    if len(inner) != 1:
-        raise AnalysisError("missing anchor: wrapper inside lazycompile")
+    # roles are found by structure, not by name: the decorator factory's parameter, the decorating closure and its parameter (the kernel source),
+    # the innermost closure with a `nonlocal` cell (the call wrapper) and its *args / **kwargs
+    deco_param = lz.args.args[0].arg if lz.args.args else None
+    inner = [n for n in ast.walk(lz) if isinstance(n, ast.FunctionDef) and n is not lz and any(isinstance(x, ast.Nonlocal) for x in n.body)]
+    if len(inner) != 1 or deco_param is None:
+        raise AnalysisError("missing anchor: call wrapper with a nonlocal cell inside lazycompile")
     wr = inner[0]
+    mids = [n for n in ast.walk(lz) if isinstance(n, ast.FunctionDef) and n is not lz and n is not wr and any(x is wr for x in ast.walk(n))]
+    src_param = mids[0].args.args[0].arg if mids and mids[0].args.args else None
+    va = wr.args.vararg.arg if wr.args.vararg else None
+    kwa = wr.args.kwarg.arg if wr.args.kwarg else None
     nl = [n for n in ast.walk(wr) if isinstance(n, ast.Nonlocal)]
     cell = nl[0].names[0] if nl and len(nl[0].names) == 1 else None
     assigns = [st for st in ast.walk(wr) if isinstance(st, ast.Assign) and any(isinstance(t, ast.Name) and t.id == cell for t in st.targets)]
-    okp = cell is not None and len(assigns) == 1 and norm_stmt(assigns[0].value) == "internal_decorator(f)"
+    okp = cell is not None and len(assigns) == 1 and norm_stmt(assigns[0].value) == f"{deco_param}({src_param})"
     rep.ob("R-PUBLISH", HFILE, "lazycompile", "the shared cell is assigned exactly once per fill, with the completed result of internal_decorator(f)", okp,
            f"assignments to the cell `{cell}`: {[norm_stmt(a) for a in assigns]}", assigns[0] if assigns else "inner_decorated = internal_decorator(f)")
     cfgw = CFG(wr)
@@ -365,7 +374,7 @@ def run(repo: Repo, tier: str) -> Report:
     rep.ob("R-PUBLISH", HFILE, "lazycompile", "the cell is filled only while it is empty and never reset", okg and not any(
         isinstance(a.value, ast.Constant) and a.value.value is None for a in assigns), f"guards of the fill", "if inner_decorated is None")
     ret = [n for n in ast.walk(wr) if isinstance(n, ast.Return)]
-    okc = len(ret) == 1 and isinstance(ret[0].value, ast.Call) and ast.unparse(ret[0].value.func) == cell and norm_stmt(ret[0].value) == f"{cell}(*args, **kwds)"
+    okc = len(ret) == 1 and isinstance(ret[0].value, ast.Call) and ast.unparse(ret[0].value.func) == cell and norm_stmt(ret[0].value) == f"{cell}(*{va}, **{kwa})" and not wr.args.args and not wr.args.kwonlyargs
     rep.ob("R-PUBLISH", HFILE, "lazycompile", "the call goes through the filled cell with the caller's arguments", okc, f"{[norm_stmt(r) for r in ret]}",
            ret[0] if ret else "return inner_decorated(*args, **kwds)")
     outer_init = [st for st in ast.walk(lz) if isinstance(st, ast.Assign) and any(isinstance(t, ast.Name) and t.id == cell for t in st.targets)
@@ -373,7 +382,8 @@ def run(repo: Repo, tier: str) -> Report:
     rep.ob("R-PUBLISH", HFILE, "lazycompile", "each decorated function owns its own cell, initialised empty", len(outer_init) == 1 and
            isinstance(outer_init[0].value, ast.Constant) and outer_init[0].value.value is None, f"{[norm_stmt(a) for a in outer_init]}",
            outer_init[0] if outer_init else "inner_decorated = None")
-    wraps = any(isinstance(d, ast.Call) and ast.unparse(d.func) == "wraps" for d in wr.decorator_list)
+    wraps = any(isinstance(d, ast.Call) and ast.unparse(d.func) in ("wraps", "functools.wraps") and [ast.unparse(a_) for a_ in d.args] == [src_param]
+                for d in wr.decorator_list)
     rep.ob("R-PUBLISH", HFILE, "lazycompile", "the undecorated source stays reachable as __wrapped__ (functools.wraps)", wraps, "", "@wraps(f)")
     lazy = [k for k in kernels.values() if k.lazy]
     rep.floor("lazily compiled kernels", len(lazy), 18)
